@@ -854,12 +854,18 @@ func (vfs *OrefaFS) Rename(oldname, newname string) error {
 		return nil
 	}
 
-	nParent.mu.Lock()
-	defer nParent.mu.Unlock()
+	// the directory nearer to the root is locked first, as a listing locks a directory before its entries.
+	first, second := nParent, oParent
+	if len(oDirName) < len(nDirName) {
+		first, second = oParent, nParent
+	}
 
-	if nParent != oParent {
-		oParent.mu.Lock()
-		defer oParent.mu.Unlock()
+	first.mu.Lock()
+	defer first.mu.Unlock()
+
+	if second != first {
+		second.mu.Lock()
+		defer second.mu.Unlock()
 	}
 
 	if nChildOk {
